@@ -517,7 +517,8 @@ func (ex *Exec) flushAsserts() {
 		return
 	}
 	ex.flushing = true
-	defer func() { ex.flushing = false }()
+	ex.solver.PreferTactic = os.Getenv("VERIF_TACTIC") != "0"
+	defer func() { ex.flushing = false; ex.solver.PreferTactic = false }()
 	pend := ex.pending
 	ex.pending = nil
 	c := ex.ctx
